@@ -114,6 +114,9 @@ pub struct Attack {
     pub halves: bool,
     /// also forge WHOAREYOUs from the IPv4-compatible spelling of the destination (thorough tier)
     pub compat: bool,
+    /// the crafted peer also speaks from a second port of its own IP address, and its own message
+    /// datagrams can be presented from there (C02: a datagram is bound to the address of its session)
+    pub two_ports: bool,
 }
 
 fn challenges_of(w: &World) -> Vec<(discv5::NodeAddress, Vec<u8>)> {
@@ -168,6 +171,12 @@ impl Driver for Attack {
             out.push((Ev::Ext(code(1, 1 << 8 | 1)), 1));
             if !w.cfg.extra_known.is_empty() {
                 out.push((Ev::Ext(code(1, 2 << 8 | 0)), 1));
+            }
+        }
+        if self.two_ports {
+            out.push((Ev::Ext(code(1, 1 << 8 | 2)), 1));
+            for d in w.log.iter().filter(|d| d.dst == w.nodes[V].addr && d.kind == 0 && d.origin == -1) {
+                out.push((Ev::Ext(code(4, (d.seq as u32) << 8 | 3)), 1));
             }
         }
         for (ci, (addr, _)) in challenges_of(w).iter().enumerate() {
@@ -259,7 +268,11 @@ impl Driver for Attack {
                         1 => m_id(),
                         _ => e_id(),
                     };
-                    let src = if arg & 0xf == 0 { m_addr() } else { x_addr };
+                    let src = match arg & 0xf {
+                        0 => m_addr(),
+                        1 => x_addr,
+                        _ => SocketAddr::new(m_addr().ip(), m_addr().port() + 1),
+                    };
                     Attack::send(w, src, VPacket::new_random(&claim)).await;
                 }
                 2 => {
@@ -345,6 +358,7 @@ impl Driver for Attack {
                     let src = match arg & 0xf {
                         0 => d.src,
                         1 => m_addr(),
+                        3 => SocketAddr::new(d.src.ip(), d.src.port() + 1),
                         _ => mapped(d.src),
                     };
                     w.log_mark = w.log.len();
@@ -422,6 +436,18 @@ impl Driver for Attack {
                 w.count("requests_in_genuine_handshakes_delivered");
             } else {
                 w.violate("C14", "every PING is answered: a request enclosed in a valid handshake reaches the application", "request-in-handshake-dropped", format!("V did not hand the PING enclosed in M's valid handshake from {from} to its application after {:?}", ev));
+            }
+        }
+        // C02: a datagram presented from another source address than the one it was sent from is
+        // never handed to the application (sessions are per address; each has its own keys)
+        if let Ev::Ext(c) = ev {
+            if c >> 24 == 4 && (c & 0xf) != 0 {
+                w.count("replays_from_foreign_source");
+                for raw in w.last_raw[V].clone() {
+                    if let HandlerOut::Request(a, _) | HandlerOut::Response(a, _) = &raw {
+                        w.violate("C02", "presenting a datagram from another source address never produces a delivered message", "foreign-source-accepted", format!("V handed a message to its application as coming from {} at {} after a recorded datagram was presented from that address ({:?})", w.name_of(&a.node_id), a.socket_addr, ev));
+                    }
+                }
             }
         }
         // harness-side fact for genuine handshakes of X delivered in this step
@@ -546,6 +572,9 @@ pub fn configs(thorough: bool) -> Vec<(String, HCfg)> {
         ("v-dials-m-retries2".to_string(), HCfg { retries: 2, ..base(vec![Req { from: 0, to: 9, body: Body::Ping, with_enr: true }], 1) }),
         ("m-session-v-dials-m".to_string(), base(vec![Req { from: 0, to: 9, body: Body::Ping, with_enr: true }], 1)),
         // X loses its state between two requests of V: V re-keys its session in place (previous keys retained)
+        // the crafted peer holds a session from one port and completes another handshake from a second
+        // port of the same IP address
+        ("m-two-ports".to_string(), base(vec![], 1)),
         ("v-rekeys-x".to_string(), HCfg { allow_restart: vec![1], ..base(vec![Req { from: 0, to: 1, body: Body::Ping, with_enr: true }, Req { from: 0, to: 1, body: Body::Talk, with_enr: true }], 1) }),
     ];
     if thorough {
@@ -561,12 +590,14 @@ pub fn prefix_of(world: &str) -> Vec<Ev> {
         // the crafted peer M has completed a genuine handshake of its own with V (V holds keys K1
         // as the recipient) and got its PING answered, before V dials M
         "m-session-v-dials-m" => vec![Ev::Ext(code(1, 1 << 8)), Ev::AnsWay(0, true), Ev::Deliver(0), Ev::Ext(code(2, 1 << 12 | 1 << 8)), Ev::Respond(0)],
+        // M's session from its first port, and a PING of M under that session answered by V
+        "m-two-ports" => vec![Ev::Ext(code(1, 1 << 8)), Ev::AnsWay(0, true), Ev::Deliver(0), Ev::Ext(code(2, 1 << 12 | 1 << 8)), Ev::Respond(0), Ev::Ext(code(8, 0)), Ev::Respond(0)],
         _ => vec![],
     }
 }
 
 pub fn driver(thorough: bool) -> Attack {
-    Attack { handshake_records: if thorough { vec![0, 1, 2, 3, 4, 5, 6] } else { vec![0, 1, 2, 3, 5, 6] }, handshake_sigs: if thorough { vec![0, 1, 2, 3] } else { vec![0, 1, 2] }, replays: true, ways: true, msgs: true, halves: thorough, compat: thorough }
+    Attack { handshake_records: if thorough { vec![0, 1, 2, 3, 4, 5, 6] } else { vec![0, 1, 2, 3, 5, 6] }, handshake_sigs: if thorough { vec![0, 1, 2, 3] } else { vec![0, 1, 2] }, replays: true, ways: true, msgs: true, halves: thorough, compat: thorough, two_ports: false }
 }
 
 pub fn regression_holds(payload: &serde_json::Value, prop: &str) -> bool {
@@ -578,7 +609,8 @@ pub fn regression_holds(payload: &serde_json::Value, prop: &str) -> bool {
         None => return true,
     };
     let monitors = Monitors { c03: prop == "C03", c04: prop == "C04", c13: prop == "C13", c15: false, c19: false, c20: prop == "C14" || prop == "C20" };
-    let d = driver(true);
+    let mut d = driver(true);
+    d.two_ports = name == "m-two-ports";
     rt::run(run_history_with(&cfg, monitors, &hist, true, &d)).violation.is_none()
 }
 
@@ -591,7 +623,8 @@ pub fn replay(payload: &serde_json::Value, prop: &str) {
         None => mc::machinery(&format!("unknown attack configuration {name}")),
     };
     let monitors = Monitors { c03: prop == "C03", c04: prop == "C04", c13: prop == "C13", c15: false, c19: false, c20: prop == "C14" || prop == "C20" };
-    let d = driver(true);
+    let mut d = driver(true);
+    d.two_ports = name == "m-two-ports";
     rt::run(crate::hsim::replay_verbose(&cfg, monitors, &hist, &d));
 }
 
@@ -607,7 +640,7 @@ pub fn explore(prop: &str, thorough: bool, budget_s: f64, k_max: u32) -> (mc::St
     if prop == "C19" {
         // nonce reuse under replayed / repeated handshakes: the crafted peer alone, genuine
         // handshakes with a verifiable and an unverifiable record, garbage, replays; worst-case RNG
-        d = Attack { handshake_records: vec![1, 3], handshake_sigs: vec![0], replays: true, ways: false, msgs: true, halves: false, compat: false };
+        d = Attack { handshake_records: vec![1, 3], handshake_sigs: vec![0], replays: true, ways: false, msgs: true, halves: false, compat: false, two_ports: false };
         cfgs.retain(|(n, _)| n == "x-silent" || (thorough && n == "v-dials-m"));
         for (_, c) in cfgs.iter_mut() {
             c.force_nonce = true;
@@ -635,7 +668,8 @@ pub fn explore(prop: &str, thorough: bool, budget_s: f64, k_max: u32) -> (mc::St
                 total.cap = Some(format!("wall budget exhausted in the pass with bound {k}"));
                 break;
             }
-            let limits = Limits { max_budget: *k, max_depth: 60, max_states: 2_000_000, wall_s: remaining };
+            // (the two-port world has a handful of moves: one more than the common bound)
+            let limits = Limits { max_budget: if name == "m-two-ports" { *k + 1 } else { *k }, max_depth: 60, max_states: 2_000_000, wall_s: remaining };
             let mut vio = vec![];
             let mut smp = vec![];
             let m = monitors.clone();
@@ -648,8 +682,14 @@ pub fn explore(prop: &str, thorough: bool, budget_s: f64, k_max: u32) -> (mc::St
             if name == "x-known-seq5" && !thorough && prop != "C01" {
                 continue;
             }
+            if name == "m-two-ports" && prop != "C02" {
+                continue;
+            }
             // worlds added for one mechanism each get the moves that mechanism needs (quick tier)
-            let d_world = if name == "v-rekeys-x" {
+            let d_world = if name == "m-two-ports" {
+                // hellos and a genuine handshake from the second port, M's recorded datagrams from there
+                Attack { handshake_records: vec![1], handshake_sigs: vec![0], replays: false, ways: false, msgs: false, halves: false, two_ports: true, ..d.clone() }
+            } else if name == "v-rekeys-x" {
                 Attack { handshake_records: vec![], handshake_sigs: vec![], ways: false, halves: false, ..d.clone() }
             } else if name == "v-dials-m-retries2" && !thorough {
                 // forged WHOAREYOUs around a retransmission
